@@ -399,3 +399,16 @@ PROPS["C03"]["units"] = list(PROPS["C03"]["units"]) + (["cli"] if "cli" not in P
 for _p, _us in {"C01": ["opt"], "C04": ["state"], "C05": ["cli"], "C10": ["geom"], "C12": ["geom"], "C13": ["geom"], "C14": ["state"], "C15": ["state"],
                 "C16": ["geom"], "C18": ["cli"], "C19": ["cli"], "C20": ["state"]}.items():
     PROPS[_p]["units"] = list(PROPS[_p].get("units", [])) + [u_ for u_ in _us if u_ not in PROPS[_p].get("units", [])]
+# WyckoffSite::new (the step from the table strings to the list of operations) under Kani: round-6 seeds Y16/1, Y16/2, Y17/2 changed it and
+# nothing looked (it was a shim "on success one operation per string")
+for _g in _GROUPS:
+    KANI["k_wyckoff_new_%s" % _g] = dict(props=["C16", "C15", "C04", "C10", "C17"], kind="complete", fn="wallpaper.rs WyckoffSite::new on the %s table" % _g,
+        what="the site built from the %s table holds exactly one operation per table string, each a general position of the group (ITA oracle, modulo the lattice), no position twice" % _g)
+KANI["k_wyckoff_new_bad"] = dict(props=["C17", "C16"], kind="bounded", bound="the one malformed table [\"x,y\", \"x\"]", fn="wallpaper.rs WyckoffSite::new on a table with a malformed string",
+    what="a table with a one-component string does not yield a site (the parse error is propagated, not swallowed)")
+for _p in ("C16", "C15", "C04", "C10"):
+    PROPS[_p]["kani"] = list(PROPS[_p].get("kani", [])) + ["k_wyckoff_new_%s" % g for g in _GROUPS if "k_wyckoff_new_%s" % g not in PROPS[_p].get("kani", [])]
+PROPS["C17"]["kani"] = list(PROPS["C17"]["kani"]) + ["k_wyckoff_new_%s" % g for g in _GROUPS] + ["k_wyckoff_new_bad"]
+PROPS["C16"]["kani"] = list(PROPS["C16"]["kani"]) + ["k_wyckoff_new_bad"]
+for _p in ("C07", "C11"):
+    PROPS[_p]["units"] = list(PROPS[_p].get("units", [])) + (["cli"] if "cli" not in PROPS[_p].get("units", []) else [])
